@@ -1,47 +1,16 @@
 """C16 — apply rules create exactly the matching objects, with or without the name-index fast path.  DESIGN.md §2 C16."""
-import subprocess
-
-from vlib import core, runner
+from vlib import core
 from .base import StdCheck
-
-SHADOW = ("host", "service")
-API_BOUND = ("obj", "host", "service", "check_command", "check_period", "event_command", "command_endpoint")
-
-
-def _rule_fields(line):
-    w = line.split(" | ")[0].split()
-    # R <id> <src> <tgt> <name> <for> <fk> <fv> <bodyhost> exprs...
-    if len(w) < 9 or w[0] != "R":
-        return None
-    return {"tgt": w[3], "for": w[5], "fk": w[6], "fv": w[7], "exprs": w[9:]}
-
-
-def _shadowing(r):
-    bound = ("host",) if r["tgt"] == "H" else SHADOW
-    return r["for"] != "-" and (r["fk"] in bound or r["fv"] in bound)
-
-
-def _fv_keys(line):
-    w = line.split(" | ")[0].split()
-    if len(w) < 4 or w[0] != "A" or w[3] in ("-", "e"):
-        return []
-    return [kv.split("=", 1)[0] for kv in w[3].split(",")]
-
-
-def _kv_after_bar(line):
-    return core.parse_kv("x " + line.split(" | ", 1)[1]) if " | " in line else {}
 
 
 class C16(StdCheck):
     prop = "C16"
     eval_key = "evaluations"
     max_shrunk = 3
-    required_theorems = ["target_hosts_sound_complete", "target_services_sound_complete", "indexed_eq_plain_partial",
-                         "indexed_eq_plain_counterexample_shadow", "indexed_eq_plain_counterexample_forkind",
-                         "indexSafe_of_no_for", "indexed_eq_plain_without_for", "apply_exactly_matching", "order_independent",
-                         "api_fast_path_eq_plain_partial", "api_fast_path_counterexample_shadowed_constant",
-                         "indexed_full_eq_plain_full_partial", "extended_services", "apply_exactly_matching_full",
-                         "order_independent_full", "model_load_meets_spec_partial", "model_load_meets_spec_counterexample"]
+    required_theorems = ["target_hosts_sound_complete", "target_services_sound_complete", "indexed_eq_plain",
+                         "apply_exactly_matching", "order_independent", "api_fast_path_eq_plain",
+                         "indexed_full_eq_plain_full", "extended_services", "apply_exactly_matching_full",
+                         "order_independent_full", "model_load_meets_spec", "model_api_meets_spec"]
     technique = ("Lean 4 proof (soundness/completeness of the filter-shape recogniser by induction on the recognised shape; refinement "
                  "'indexed = plain' as sets via a per-(rule,target) equivalence of outcomes; set comprehension characterisation of plain "
                  "evaluation) over a hand-written model of ApplyRule::AddTargetedRule/GetTargetHosts/GetTargetServices, "
@@ -53,13 +22,13 @@ class C16(StdCheck):
                   "&&, ||, !, arbitrary opaque sub-expressions), every rule list, inventory and environment, no size bounds: whenever "
                   "GetTargetHosts/GetTargetServices extract a name list the filter evaluates - without raising - to 'target is in the list' "
                   "(with filter_vars constants); the name index and plain evaluation accept/reject the same configurations and create the same "
-                  "set of objects provided a recognised rule does not name its loop variable host/service and its for-value has the expected "
-                  "kind on every target (both exclusions have kernel-checked counterexamples, reproduced on the real code: F-C16a, F-C16b); plain "
+                  "set of objects (indexed_eq_plain, unconditional since commit b11cb6d removed F-C16a/F-C16b: rules with `for` are not indexed); plain "
                   "evaluation creates an object exactly for the (rule, target, for-instance) triples where some assign is true and no ignore is; "
                   "both are invariant under permuting rules/hosts/services; all of this also for whole loads in which services created by apply Service "
                   "rules become targets of the to-Service rules; the model's whole observable trace (as written / wrapped / 16 threads) satisfies "
-                  "the executable specification predicate under the same hypothesis (model_load_meets_spec_partial, with counterexample); the API fast path returns the same set as evaluation provided no "
-                  "filter_vars key is a name the evaluator binds itself (counterexample F-C16c, reproduced). The model is tied to the code by "
+                  "the executable specification predicate (model_load_meets_spec, model_api_meets_spec); the API fast path returns the same set as "
+                  "evaluation (api_fast_path_eq_plain, unconditional since commit 77a9c63 removed F-C16c: no fast path when a filter_vars key is a "
+                  "name the evaluator binds itself). The model is tied to the code by "
                   "loading thousands of generated configurations (4 source types x Host/Service targets, for-loops over arrays/dictionaries, "
                   "ignore where, constants, filters concentrated on the recognised shapes and their near misses) and comparing the created "
                   "objects (type, name, loop variables, target seen by the body) with the model in both variants; the same specification "
@@ -91,58 +60,7 @@ class C16(StdCheck):
             "expressions with opaque atoms; ignore where in ~25 %; each configuration loaded as written and wrapped, Concurrency 1 (and 16 on "
             "every 3rd case; always in thorough), plus 0-4 API queries (fast vs wrapped) with filter_vars. evaluations = (rule, target) filter "
             "evaluations of the model's plain semantics + API per-object evaluations; a case is non-trivial when an apply rule created an "
-            "object, model index/plain diverge, or the API fast path returned an object; distinct by hash of the case (counted by the Lean driver)")
-
-    # ------------------------------------------------------------------------------------------
-    def _signature(self, case, clause):
-        """Coarse pre-classification of an un-shrunk failing case: which known pattern could explain it."""
-        if clause == "fastpath_independent":
-            rs = [r for r in map(_rule_fields, case) if r]
-            if any(_shadowing(r) for r in rs):
-                return "loopvar"
-            if any(r["for"] != "-" for r in rs):
-                return "forkind"
-        if clause == "api_fastpath_independent":
-            if any(k in API_BOUND for l in case for k in _fv_keys(l)):
-                return "fvshadow"
-        return "other"
-
-    def collect(self, res, lines, save, harness, driver):
-        bad = [l for l in lines if l.startswith("BADLINE")]
-        if bad:
-            res.corr_failures.append(runner.Finding("corr", "protocol", bad[:5]))
-        shrunk = {}
-        for l in lines:
-            if not l.startswith("SPECFAIL"):
-                continue
-            kv = core.parse_kv(l)
-            cl = kv.get("clause", "?")
-            case = runner.extract_case(save, int(kv["case"]), self.case_start)
-            sig = self._signature(case, cl)
-            key = (cl, sig)
-            shrunk.setdefault(key, 0)
-            res.stats = getattr(res, "stats", {}) or {}
-            # failures that no known pattern could explain are always minimised and reported (up to 5);
-            # of those that a known pattern may explain, three per pattern are minimised and classified narrowly
-            if shrunk[key] >= (5 if sig == "other" else self.max_shrunk):
-                continue
-            shrunk[key] += 1
-            shown = self.shrink(harness, driver, case, "SPECFAIL", "clause=" + cl)
-            res.spec_failures.append(runner.Finding("spec", f"spec:{self.prop}:{cl}:{sig}:{shrunk[key]}", shown,
-                                                    {"driver": l, "clause": cl}))
-        n = 0
-        seen_m = set()
-        for l in lines:
-            if l.startswith("MISMATCH") and n < self.max_shrunk:
-                kv = core.parse_kv(l)
-                case = runner.extract_case(save, int(kv["case"]), self.case_start)
-                shown = self.shrink(harness, driver, case, "MISMATCH")
-                key = tuple(shown)
-                if key in seen_m:
-                    continue
-                seen_m.add(key)
-                n += 1
-                res.corr_failures.append(runner.Finding("corr", kv.get("what", "observation"), shown, {"driver": l}))
+            "object or the API fast path returned an object; distinct by hash of the case (counted by the Lean driver)")
 
     def correspondence(self, tier, seed, harness, driver):
         res = super().correspondence(tier, seed, harness, driver)
@@ -152,56 +70,12 @@ class C16(StdCheck):
         short = {k: st.get(k, 0) for k, v in need.items() if st.get(k, 0) < v}
         if short:
             raise core.TieBroken("harness:c16:coverage", f"generator no longer reaches: {short}")
+        if st.get("model_index_vs_plain_diverge", 0) or st.get("api_model_diverge", 0):
+            raise core.TieBroken("model:c16:diverge", "the model's indexed and plain semantics differ on a generated case although "
+                                 f"indexed_eq_plain / api_fast_path_eq_plain are proved: {st}")
         return res
 
-    # ------------------------------------------------------------------------------------------
-    def _model_agrees(self, case_lines):
-        """The minimised case through the driver: the model reproduces the implementation's observations (no MISMATCH)
-        and itself predicts the divergence."""
-        driver = core.build_driver(self.prop)
-        p = subprocess.run([driver], input="\n".join(case_lines) + "\n", stdout=subprocess.PIPE, text=True)
-        out = p.stdout.splitlines()
-        if any(l.startswith(("MISMATCH", "BADLINE")) for l in out):
-            return False, {}
-        stats = {}
-        for l in out:
-            if l.startswith("STATS"):
-                stats = core.parse_kv(l)
-        return True, stats
-
     def matches_known(self, entry, finding):
-        if finding.kind != "spec":
-            return False
-        case = [l for l in finding.case_lines if l.strip() and not l.startswith("#")]
-        rules = [r for r in map(_rule_fields, case) if r]
-        cl = finding.detail.get("clause", "")
-        c = entry.get("classifier")
-        if c in ("c16_loopvar_shadows_target", "c16_for_kind_mismatch_off_target"):
-            # minimised witness: one rule, or two in a cascade (an `apply Service` rule creating the target of a to-Service rule)
-            cascade = len(rules) == 2 and sorted(r["tgt"] for r in rules) == ["H", "S"]
-            if cl != "fastpath_independent" or not (len(rules) == 1 or cascade):
-                return False
-            lobs = [_kv_after_bar(l) for l in case if l.startswith("L")]
-            if len(lobs) != 1 or not lobs[0].get("p1", "").startswith("ok:") or lobs[0].get("w1") != "rejected":
-                return False
-            # the model reproduces both observations and itself predicts the divergence; by indexed_full_eq_plain_full_partial
-            # the model diverges only if some recognised rule violates IndexSafe: a loop variable named host/service
-            # (F-C16a) or a `for` value of the wrong kind on a target (F-C16b)
-            ok, stats = self._model_agrees(case)
-            if not ok or stats.get("model_index_vs_plain_diverge") != "1":
-                return False
-            shadow = any(_shadowing(r) for r in rules)
-            if c == "c16_loopvar_shadows_target":
-                return shadow
-            return (not shadow) and any(r["for"] != "-" for r in rules)
-        if c == "c16_filter_var_shadowed_by_target":
-            if cl != "api_fastpath_independent":
-                return False
-            alines = [l for l in case if l.startswith("A ")]
-            if len(alines) != 1 or not any(k in API_BOUND for k in _fv_keys(alines[0])):
-                return False
-            ok, stats = self._model_agrees(case)
-            return ok and stats.get("api_model_diverge") == "1" and stats.get("api_recognised") == "1"
         return False
 
 
